@@ -117,6 +117,15 @@ class Program:
             return 1 << 30
         return max(int(getattr(s, "dimensions", 1)), 1)
 
+    def crowded(self, live: List[Any]) -> bool:
+        """would bringing everything together exceed what a dense density matrix can hold?"""
+        total = 1
+        for s in live:
+            total *= max(int(getattr(s, "dimensions", 1)), 1)
+            if total > 3000:
+                return True
+        return any(self.block_dim(s) > 1500 for s in live)
+
     def heavy(self, s: Any) -> bool:
         return int(getattr(s, "dimensions", 1)) > 24 or self.block_dim(s) > 1500
 
@@ -216,9 +225,12 @@ class Program:
         if PROFILE == "ctwin":      # no switch toggling by the program itself; near-pure states on purpose
             kinds = ["op1"] * 5 + ["tiny"] * 5 + ["opn"] * 3 + ["kraus"] * 2 + ["measure"] * 2 + ["struct"] * 4 + ["composite"] * 2 + ["resize"]
         what = r.choice(kinds)
+        live = self.live()
+        if live and self.crowded(live) and what not in ("op1", "tiny", "measure", "resize", "config", "invalid"):
+            # the joint space of this program is already large: nothing that brings blocks together any more
+            what = "measure" if r.random() < 0.4 else "op1"
         self.last_kind = what
         tracer.set_intent("valid")
-        live = self.live()
         if not live:
             return
         try:
